@@ -69,38 +69,36 @@ Proof.
 Qed.
 
 Lemma max_occ_nonneg l : 0 <= max_occ l.
-Proof.
-  induction l as [|p l IH]; simpl; [lra|]. destruct (Rlt_dec 0 (snd p)); [|exact IH].
-  eapply Rle_trans; [exact IH|apply Rmax_r].
-Qed.
+Proof. induction l as [|p l IH]; simpl; [lra|]. eapply Rle_trans; [exact IH|apply Rmax_r]. Qed.
 
 Lemma max_occ_ge l p : In p l -> 0 < snd p -> fst p <= max_occ l.
 Proof.
   induction l as [|q l IH]; intros H Hp; [contradiction|]. simpl. destruct H as [->|H].
   - destruct (Rlt_dec 0 (snd p)); [apply Rmax_l|contradiction].
-  - destruct (Rlt_dec 0 (snd q)); [eapply Rle_trans; [apply IH; assumption|apply Rmax_r]|now apply IH].
+  - eapply Rle_trans; [apply IH; assumption|apply Rmax_r].
 Qed.
 
-Lemma max_occ_le_max_amp l : max_occ l <= max_amp l.
+Lemma max_occ_le_max_amp l : coll_ok l -> max_occ l <= max_amp l.
 Proof.
-  induction l as [|p l IH]; simpl; [lra|]. destruct (Rlt_dec 0 (snd p)).
-  - now apply Rle_max_compat_l. - eapply Rle_trans; [exact IH|apply Rmax_r].
+  induction 1 as [|p l [Ha Hn] Hl IH]; simpl; [lra|].
+  apply Rmax_lub.
+  - destruct (Rlt_dec 0 (snd p)); [apply Rmax_l|]. eapply Rle_trans; [apply max_amp_nonneg|apply Rmax_r].
+  - eapply Rle_trans; [exact IH|apply Rmax_r].
 Qed.
 
 Lemma max_occ_attained l : 0 < max_occ l -> exists p, In p l /\ 0 < snd p /\ fst p = max_occ l.
 Proof.
-  induction l as [|q l IH]; simpl; [lra|]. destruct (Rlt_dec 0 (snd q)) as [Hq|Hq].
-  - intros H. unfold Rmax in *. destruct (Rle_dec (fst q) (max_occ l)).
-    + destruct (IH H) as [p [Hin [Hp He]]]. exists p. auto.
-    + exists q. auto.
-  - intros H. destruct (IH H) as [p [Hin [Hp He]]]. exists p. auto.
+  induction l as [|q l IH]; simpl; [lra|]. intros H. unfold Rmax in *.
+  destruct (Rle_dec (if Rlt_dec 0 (snd q) then fst q else 0) (max_occ l)).
+  - destruct (IH H) as [p [Hin [Hp He]]]. exists p. auto.
+  - destruct (Rlt_dec 0 (snd q)); [exists q; auto|lra].
 Qed.
 
 (* every class occupied up to the top one: the two maxima coincide *)
-Lemma max_occ_eq_max_amp l :
+Lemma max_occ_eq_max_amp l : coll_ok l ->
   (exists p, In p l /\ 0 < snd p /\ fst p = max_amp l) -> max_occ l = max_amp l.
 Proof.
-  intros [p [Hin [Hp He]]]. apply Rle_antisym; [apply max_occ_le_max_amp|].
+  intros Hl [p [Hin [Hp He]]]. apply Rle_antisym; [now apply max_occ_le_max_amp|].
   rewrite <- He. now apply max_occ_ge.
 Qed.
 
@@ -429,4 +427,212 @@ Proof.
   unfold cycles, make_k, gassner_curve. simpl. destruct (Rlt_dec S (SD c)).
   - destruct (k2 c); [|reflexivity]. destruct (Rle_dec S 0); [reflexivity|]. f_equal. ring.
   - destruct (Rle_dec S 0); [reflexivity|]. f_equal. ring.
+Qed.
+
+(* ------------------------------------------------------------------ Gassner, Miner-Haibach *)
+Lemma Rpower_inv_base y e : 0 < y -> Rpower (/ y) e = Rpower y (- e).
+Proof. intros Hy. unfold Rpower. rewrite ln_Rinv by assumption. f_equal. ring. Qed.
+
+(* one member's share of the denominator of MinerHaibach.lifetime_multiple *)
+Definition haibach_term (c : curve) (m : R) (p : R * R) : R :=
+  (if Rlt_dec (fst p) (SD c) then 0 else snd p * npow (fst p / m) (k1 c)) +
+  npow (SD c / m) (1 - k1 c) * (if Rlt_dec (fst p) (SD c) then snd p * npow (fst p / m) (2 * k1 c - 1) else 0).
+
+Lemma haibach_denominator c l :
+  haibach_sum1 c l + npow (SD c / max_amp l) (1 - k1 c) * haibach_sum2 c l = Rsum (map (haibach_term c (max_amp l)) l).
+Proof.
+  unfold haibach_sum1, haibach_sum2, haibach_term. cbv zeta.
+  rewrite <- Rsum_map_plus. f_equal. symmetry. apply Rsum_map_scal. intros x _. reflexivity.
+Qed.
+
+Lemma haibach_term_nonneg c m a n : 0 < SD c -> 0 < m -> 0 <= a -> 0 <= n -> 0 <= haibach_term c m (a, n).
+Proof.
+  intros HS Hm Ha Hn. unfold haibach_term. simpl.
+  assert (0 <= a / m) by (apply Rmult_le_pos; [assumption|left; now apply Rinv_0_lt_compat]).
+  assert (0 < SD c / m) by (apply Rdiv_lt_0_compat; assumption).
+  pose proof (npow_gt0 (SD c / m) (1 - k1 c) H0).
+  pose proof (npow_ge0 (a / m) (k1 c) H). pose proof (npow_ge0 (a / m) (2 * k1 c - 1) H).
+  destruct (Rlt_dec a (SD c)).
+  - rewrite Rplus_0_l. apply Rmult_le_pos; [lra|apply Rmult_le_pos; assumption].
+  - rewrite Rmult_0_r, Rplus_0_r. apply Rmult_le_pos; assumption.
+Qed.
+
+Lemma haibach_term_pos c m a n : 0 < SD c -> 0 < m -> 0 < a -> 0 < n -> 0 < haibach_term c m (a, n).
+Proof.
+  intros HS Hm Ha Hn. unfold haibach_term. simpl.
+  assert (0 < a / m) by (apply Rdiv_lt_0_compat; assumption).
+  assert (0 < SD c / m) by (apply Rdiv_lt_0_compat; assumption).
+  pose proof (npow_gt0 (SD c / m) (1 - k1 c) H0).
+  pose proof (npow_gt0 (a / m) (k1 c) H). pose proof (npow_gt0 (a / m) (2 * k1 c - 1) H).
+  destruct (Rlt_dec a (SD c)).
+  - rewrite Rplus_0_l. apply Rmult_lt_0_compat; [lra|apply Rmult_lt_0_compat; assumption].
+  - rewrite Rmult_0_r, Rplus_0_r. apply Rmult_lt_0_compat; assumption.
+Qed.
+
+Lemma damage1_haibach_term c m a n : curve_ok c -> 0 < m -> 0 <= a ->
+  damage1 (miner_haibach c) (a, n) = npow (m / SD c) (k1 c) / ND c * haibach_term c m (a, n).
+Proof.
+  intros Hc Hm Ha. rewrite damage1_haibach by assumption.
+  pose proof (k1_ne0 c Hc). pose proof (k2h_ne0 c Hc). destruct Hc as (HN & HS & Hk).
+  unfold haibach_term. simpl.
+  assert (Hy : 0 < m / SD c) by (apply Rdiv_lt_0_compat; assumption).
+  destruct (Rlt_dec a (SD c)).
+  - rewrite (npow_split a m (SD c)) by assumption.
+    assert (E : npow (m / SD c) (2 * k1 c - 1) = npow (m / SD c) (k1 c) * npow (SD c / m) (1 - k1 c)).
+    { replace (SD c / m) with (/ (m / SD c)) by (field; split; lra).
+      rewrite (npow_pos (/ (m / SD c))) by (now apply Rinv_0_lt_compat).
+      rewrite !npow_pos by assumption. rewrite Rpower_inv_base by assumption.
+      rewrite <- Rpower_plus. f_equal. ring. }
+    rewrite E. unfold Rdiv. ring.
+  - rewrite (npow_split a m (SD c)) by assumption. unfold Rdiv. ring.
+Qed.
+
+Theorem gassner_haibach_damage_one c l : curve_ok c -> coll_ok l -> 0 < max_occ l ->
+  SD c <= max_amp l ->                                       (* load level at/above the knee point *)
+  exists Ng, gassner_cycles lm_haibach c l = Some Ng /\
+             damage_sum (miner_haibach c) (apply_for Ng l) = 1.
+Proof.
+  intros Hc Hl Hm Hlev. pose proof (k1_ne0 c Hc) as Hk0.
+  assert (HS : 0 < SD c) by apply Hc. assert (HN : 0 < ND c) by apply Hc.
+  assert (Hma : 0 < max_amp l) by lra.
+  pose proof (total_pos_of_occ l Hl Hm) as HT.
+  assert (Hcy : cycles c (max_amp l) = Some (ND c * npow (max_amp l / SD c) (- k1 c))).
+  { unfold cycles, make_k. destruct (Rlt_dec (max_amp l) (SD c)); [lra|].
+    destruct (Rle_dec (max_amp l) 0); [lra|reflexivity]. }
+  unfold gassner_cycles. rewrite Hcy. eexists. split; [reflexivity|].
+  unfold apply_for. rewrite damage_proportional. unfold damage_sum, damage.
+  pose proof Hl as Hl'. unfold coll_ok in Hl'. rewrite Forall_forall in Hl'.
+  rewrite (Rsum_map_scal (damage1 (miner_haibach c)) (haibach_term c (max_amp l))
+                         (npow (max_amp l / SD c) (k1 c) / ND c)).
+  2:{ intros [a n] Hin. destruct (Hl' _ Hin) as [Ha Hn]. now apply damage1_haibach_term. }
+  unfold lm_haibach. rewrite haibach_denominator.
+  assert (HD : 0 < Rsum (map (haibach_term c (max_amp l)) l)).
+  { destruct (max_occ_attained l Hm) as [[a n] [Hin [Hp He]]]. simpl in Hp, He.
+    apply Rsum_map_pos with (a, n); [|assumption|apply haibach_term_pos; lra].
+    intros [a' n'] Hin'. destruct (Hl' _ Hin') as [Ha' Hn']. now apply haibach_term_nonneg. }
+  assert (0 < max_amp l / SD c) by (apply Rdiv_lt_0_compat; lra).
+  rewrite !npow_pos by assumption. rewrite Rpower_Ropp.
+  assert (0 < Rpower (max_amp l / SD c) (k1 c)) by (unfold Rpower; apply exp_pos).
+  field. repeat split; lra.
+Qed.
+
+(* below the knee point the formula is not the Gassner life of the Haibach rule (documented in the source:
+   "return value is 'inf' if maximum collective amplitude < SD"): with the default k_2 = inf the code returns inf *)
+Theorem gassner_haibach_below_knee_inf c l : k2 c = None -> max_amp l < SD c ->
+  gassner_cycles lm_haibach c l = None.
+Proof.
+  intros Hk Hlt. unfold gassner_cycles, cycles, make_k. rewrite Hk.
+  destruct (Rlt_dec (max_amp l) (SD c)); [reflexivity|contradiction].
+Qed.
+
+(* ------------------------------------------------------------------ effective damage sum *)
+Theorem effective_damage_in_range A : 3 / 10 <= eds A <= 1.
+Proof.
+  unfold eds. split.
+  - apply Rmin_glb; [apply Rmax_l|lra].
+  - apply Rmin_r.
+Qed.
+
+Lemma div_mul_cancel a r : 0 < r -> a / r * r = a.
+Proof. intros. field. lra. Qed.
+
+Lemma pow4_lt x y : 0 <= x -> x < y -> x ^ 4 < y ^ 4.
+Proof.
+  intros H0 H. assert (x * x < y * y) by nra. assert (0 <= x * x) by nra.
+  replace (x ^ 4) with ((x * x) * (x * x)) by ring. replace (y ^ 4) with ((y * y) * (y * y)) by ring. nra.
+Qed.
+
+(* inside the clipping range the value is 2 / A^(1/4), i.e. eds(A)^4 * A = 16 *)
+Theorem effective_damage_unclipped A : 16 <= A -> A * 81 <= 160000 -> eds A = 2 / npow A (1 / 4) /\ eds A ^ 4 * A = 16.
+Proof.
+  intros Hlo Hhi. assert (HA : 0 < A) by lra.
+  set (r := npow A (1 / 4)).
+  assert (Hr : 0 < r) by (apply npow_gt0; assumption).
+  assert (Hr4 : r ^ 4 = A).
+  { unfold r. rewrite npow_pos by assumption. rewrite <- Rpower_pow by (unfold Rpower; apply exp_pos).
+    rewrite Rpower_mult. replace (1 / 4 * INR 4) with 1 by (simpl; field). now apply Rpower_1. }
+  assert (H2 : 2 <= r).
+  { destruct (Rle_lt_dec 2 r) as [|Hc]; [assumption|]. exfalso.
+    assert (r ^ 4 < 2 ^ 4) by (apply pow4_lt; lra). lra. }
+  assert (H3 : r * 3 <= 20).
+  { destruct (Rle_lt_dec (r * 3) 20) as [|Hc]; [assumption|]. exfalso.
+    assert (H : 20 ^ 4 < (r * 3) ^ 4) by (apply pow4_lt; lra). replace ((r * 3) ^ 4) with (r ^ 4 * 81) in H by ring. lra. }
+  assert (E : eds A = 2 / r).
+  { unfold eds. fold r.
+    assert (3 / 10 <= 2 / r) by (pose proof (div_mul_cancel 2 r Hr); set (q := 2 / r) in *; nra).
+    assert (2 / r <= 1) by (pose proof (div_mul_cancel 2 r Hr); set (q := 2 / r) in *; nra).
+    rewrite Rmax_right by assumption. now rewrite Rmin_left. }
+  split; [exact E|]. rewrite E, <- Hr4. field. lra.
+Qed.
+
+Theorem effective_damage_clipped A : 0 < A -> (A <= 16 -> eds A = 1) /\ (160000 <= A * 81 -> eds A = 3 / 10).
+Proof.
+  intros HA. set (r := npow A (1 / 4)).
+  assert (Hr : 0 < r) by (apply npow_gt0; assumption).
+  assert (Hr4 : r ^ 4 = A).
+  { unfold r. rewrite npow_pos by assumption. rewrite <- Rpower_pow by (unfold Rpower; apply exp_pos).
+    rewrite Rpower_mult. replace (1 / 4 * INR 4) with 1 by (simpl; field). now apply Rpower_1. }
+  split; intros H.
+  - assert (r <= 2).
+    { destruct (Rle_lt_dec r 2) as [|Hc]; [assumption|]. exfalso. assert (2 ^ 4 < r ^ 4) by (apply pow4_lt; lra). lra. }
+    assert (1 <= 2 / r) by (pose proof (div_mul_cancel 2 r Hr); set (q := 2 / r) in *; nra).
+    unfold eds. fold r. rewrite Rmin_right; [reflexivity|]. eapply Rle_trans; [exact H1|apply Rmax_r].
+  - assert (20 <= r * 3).
+    { destruct (Rle_lt_dec 20 (r * 3)) as [|Hc]; [assumption|]. exfalso.
+      assert (H0 : (r * 3) ^ 4 < 20 ^ 4) by (apply pow4_lt; lra). replace ((r * 3) ^ 4) with (r ^ 4 * 81) in H0 by ring. lra. }
+    assert (2 / r <= 3 / 10) by (pose proof (div_mul_cancel 2 r Hr); set (q := 2 / r) in *; nra).
+    unfold eds. fold r. rewrite Rmax_left by assumption. rewrite Rmin_left by lra. reflexivity.
+Qed.
+
+(* ------------------------------------------------------------------ witnesses *)
+Ltac max_compute :=
+  cbv [max_occ max_amp fold_right fst snd];
+  repeat match goal with
+         | |- context [Rlt_dec ?a ?b] => destruct (Rlt_dec a b); try lra
+         | |- context [Rmax ?a ?b] => first [rewrite (Rmax_left a b) by lra | rewrite (Rmax_right a b) by lra]
+         end; try reflexivity.
+
+Definition ex_curve : curve := mkCurve 5 None 1000000 100.
+Definition ex_full : coll := [(50, 10); (150, 5); (250, 2); (350, 1)].
+Definition ex_empty_top : coll := [(50, 10); (150, 5); (250, 2); (350, 0)].   (* fixed-bin histogram, top class empty *)
+
+Lemma ex_curve_ok : curve_ok ex_curve.
+Proof. unfold curve_ok, ex_curve; simpl; lra. Qed.
+Lemma ex_full_ok : coll_ok ex_full.
+Proof. unfold coll_ok, ex_full. repeat constructor; simpl; lra. Qed.
+Lemma ex_empty_top_ok : coll_ok ex_empty_top.
+Proof. unfold coll_ok, ex_empty_top. repeat constructor; simpl; lra. Qed.
+Lemma ex_full_max : max_occ ex_full = 350 /\ max_amp ex_full = 350.
+Proof. unfold ex_full. split; max_compute. Qed.
+Lemma ex_empty_top_max : max_occ ex_empty_top = 250 /\ max_amp ex_empty_top = 350.
+Proof. unfold ex_empty_top. split; max_compute. Qed.
+
+(* the hypotheses of the positive theorems are satisfiable *)
+Example gassner_hypotheses_satisfiable :
+  curve_ok ex_curve /\ coll_ok ex_full /\ 0 < max_occ ex_full /\ max_occ ex_full = max_amp ex_full /\
+  SD ex_curve <= max_amp ex_full.
+Proof.
+  destruct ex_full_max as [H1 H2]. rewrite H1, H2. simpl.
+  repeat split; try apply ex_curve_ok; try apply ex_full_ok; lra.
+Qed.
+
+(* the unrestricted statement (damage one whichever classes are empty) is false of the faithful model *)
+Theorem gassner_elementary_empty_top_refuted :
+  exists c l, curve_ok c /\ coll_ok l /\ 0 < total l /\ SD c <= max_amp l /\
+    exists Ng, gassner_cycles lm_elementary c l = Some Ng /\
+               damage_sum (miner_elementary c) (apply_for Ng l) = (5 / 7) ^ 5 /\
+               damage_sum (miner_elementary c) (apply_for Ng l) <> 1.
+Proof.
+  exists ex_curve, ex_empty_top. destruct ex_empty_top_max as [H1 H2].
+  assert (Hm : 0 < max_occ ex_empty_top) by lra.
+  assert (Hlev : SD ex_curve <= max_amp ex_empty_top) by (rewrite H2; simpl; lra).
+  split; [apply ex_curve_ok|]. split; [apply ex_empty_top_ok|].
+  split; [apply total_pos_of_occ; [apply ex_empty_top_ok|assumption]|]. split; [assumption|].
+  destruct (gassner_elementary_empty_top_value ex_curve ex_empty_top ex_curve_ok ex_empty_top_ok Hm Hlev) as [Ng [E1 E2]].
+  exists Ng. split; [exact E1|].
+  assert (E3 : damage_sum (miner_elementary ex_curve) (apply_for Ng ex_empty_top) = (5 / 7) ^ 5).
+  { rewrite E2, H1, H2. simpl k1. rewrite npow_pos by lra.
+    replace (Rpower (250 / 350) 5) with (Rpower (250 / 350) (INR 5)) by (f_equal; simpl; ring).
+    rewrite Rpower_pow by lra. f_equal. field. }
+  split; [exact E3|]. rewrite E3. lra.
 Qed.
